@@ -83,7 +83,12 @@ def build_and_run(unit, sanitize=True, plain=True, run_timeout=300):
             return res
         res['plain'] = run(['./drv_plain'], d, run_timeout)
     if sanitize:
-        rc, out, err = run(['clang'] + CLANG_FLAGS + [unit.gen_source, unit.driver, '-o', 'drv_san'], d)
+        # only the generated source is instrumented; the driver is plain -O0 code (fast to compile)
+        rc, out, err = run(['clang'] + CLANG_FLAGS + ['-c', unit.gen_source, '-o', 'gen_san.o'], d)
+        if rc == 0:
+            rc, out, err = run(['clang', '-std=c99', '-O0', '-w', '-c', unit.driver, '-o', 'drv_san.o'], d)
+        if rc == 0:
+            rc, out, err = run(['clang', '-fsanitize=address,undefined', '-fuse-ld=gold', 'gen_san.o', 'drv_san.o', '-o', 'drv_san'], d)
         if rc != 0:
             res['clang_err'] = err
             shutil.rmtree(d, True)
@@ -101,3 +106,18 @@ def run_units(units, jobs=16, **kw):
         for u, f in zip(units, futs):
             u.result = f.result()
     return units
+
+
+_reported = {}
+
+
+def limited_violation(ctx, cls, what, replay, per_class=3, total=15, **kw):
+    """Report at most [per_class] failing inputs per failure class and [total]
+    per run (one defect usually fails hundreds of generated cases); the rest is
+    only counted."""
+    n = _reported.get(cls, 0)
+    _reported[cls] = n + 1
+    if n >= per_class or sum(min(v, per_class) for v in _reported.values()) > total:
+        ctx.count('further-failures-not-listed:' + cls)
+        return
+    ctx.violation(what, replay, **kw)
